@@ -74,6 +74,7 @@ CLAUSE → THEOREM TABLE (review R3; property text in properties.jsonl, id C09)
     `Lemmas/Grid.lean`) show they are the closed forms the theorems talk about.
 -/
 import FairModel.Lemmas.C09Review
+import FairModel.Generated.ValidationTables
 
 namespace C09
 open Grid
@@ -874,5 +875,59 @@ example : predictWith (fun (p : List Nat) => p.sum) [[1, 1, 0, 0], [0, 0, 0, 1]]
 /-- `all_zero_weights_take_dummy_branch`: the F12 shape (constraint weights cancel the objective weights on every row) -/
 example : combineWeights false [1, -1, 1, -1] [-1, 1, -1, 1] = [0, 0, 0, 0] ∧
     trainAt xLearner (relabel [0, 0, 0, 0]) = [0, 0, 0, 0] ∧ ([0, 0, 0, 0] : List Rat) ≠ [] := by decide +kernel
+
+/-! ### the regression branch and the constructor check (lifted) -/
+
+/-- `is_classification_reduction` is exactly "the constraints object is a `ClassificationMoment`" (lifted) -/
+theorem src_isClassification (b : Bool) : GridSrc.isClassification b = b := by cases b <;> rfl
+
+/-- the lifted `else:` branch (`y_reduction = self.constraints._y_as_series`): for a moment that is not a
+    `ClassificationMoment` (BoundedGroupLoss) the estimator is fitted on the ORIGINAL labels with the signed weights,
+    row by row — nothing is relabelled or reweighted -/
+theorem src_regression_keeps_data (y w : List Rat) : fitData false y w = y.zip w := by
+  simp only [fitData, src_isClassification, relabelReg, GridSrc.regressionY, GridSrc.regressionW, Bool.false_eq_true, if_false]
+  induction y generalizing w with
+  | nil => simp
+  | cons a as ih => cases w with
+    | nil => simp
+    | cons b bs => simp [ih]
+
+/-- … while for a `ClassificationMoment` it is the relabelled / reweighted data of `relabel` -/
+theorem src_classification_fitData (y w : List Rat) :
+    fitData true y w = (relabel w).map (fun p => (((p.1 : Nat) : Rat), p.2)) := by
+  simp [fitData, src_isClassification]
+
+/-- why the check may replay the regression branch through the classification ops: on a 0/1 label `y` with a POSITIVE
+    weight `w` (BoundedGroupLoss weights are `lambda_g / n ≥ 0`; a zero weight row costs nothing under either label) the
+    relabelling of the signed weight `±w` gives back exactly `(y, w)`, the regression branch's data -/
+theorem src_regression_emulation (y : Nat) (hy : y = 0 ∨ y = 1) (w : Rat) (hw : 0 < w) :
+    ((GridSrc.relabelY (if y = 1 then w else -w)).toNat, GridSrc.relabelW (if y = 1 then w else -w)) =
+      (y, GridSrc.regressionW w) := by
+  rcases hy with rfl | rfl
+  · have h1 : ¬ (0 : Rat) < -w := by linarith
+    have h2 : -w < 0 := by linarith
+    simp [GridSrc.relabelY, GridSrc.relabelW, GridSrc.regressionW, GridSrc.ratAbs, h1, h2]
+  · have h2 : ¬ w < 0 := by linarith
+    simp [GridSrc.relabelY, GridSrc.relabelW, GridSrc.regressionW, GridSrc.ratAbs, hw, h2]
+
+/-- the lifted constructor check (`Generated/ValidationTables.gridSearchCtor`, the same definition C20's
+    `gridSearch_ok_iff` is about): a GridSearch object that was constructed has `0 ≤ constraint_weight ≤ 1` — the
+    quantifier of this property — hence both coefficients of the lifted trade-off loss are non-negative and sum to 1 -/
+theorem src_ctor_constraint_weight (isMoment ruleOk : Bool) (cw : Rat)
+    (h : Generated.ValidationTables.gridSearchCtor isMoment ruleOk cw = true) :
+    0 ≤ cw ∧ cw ≤ 1 ∧ 0 ≤ GridSrc.objectiveWeight cw ∧ GridSrc.objectiveWeight cw + cw = 1 ∧
+      ∀ obj g, GridSrc.loss cw obj g = GridSrc.objectiveWeight cw * obj + cw * g := by
+  unfold Generated.ValidationTables.gridSearchCtor at h
+  have hc : 0 ≤ cw ∧ cw ≤ 1 := by
+    cases isMoment <;> cases ruleOk <;> by_cases h1 : 0 ≤ cw <;> by_cases h2 : cw ≤ 1 <;> simp_all
+  refine ⟨hc.1, hc.2, ?_, ?_, ?_⟩
+  · simp only [GridSrc.objectiveWeight]; linarith [hc.2]
+  · simp only [GridSrc.objectiveWeight]; ring
+  · intro obj g; simp only [GridSrc.loss, GridSrc.objectiveWeight]
+
+example : fitData false [1, 0, 1] [1/4, 1/2, 0] = [(1, 1/4), (0, 1/2), (1, 0)] := by decide +kernel
+example : fitData true [1, 0, 1] [1/4, -1/2, 0] = [(1, 1/4), (0, 1/2), (0, 0)] := by decide +kernel
+example : Generated.ValidationTables.gridSearchCtor true true (1/2) = true ∧
+    Generated.ValidationTables.gridSearchCtor true true (3/2) = false := by decide +kernel
 
 end C09
